@@ -40,10 +40,11 @@ res["patch_applies"] = rc == 0
 def build_demo():
     if demo_src.endswith(".sh"):
         return "sh %s" % demo_src
-    m = re.search(r"(gcc[^\n]*)", head)
+    joined = re.sub(r"\\\s*\n[ \t]*(?:\*|//)?[ \t]*", " ", head)      # join backslash-continued comment lines
+    m = re.search(r"(gcc[^\n]*)", joined)
     cmd = m.group(1).strip().rstrip("*/ ").strip() if m else "gcc -I. -Imtbl %s -o demo mtbl/.libs/libmtbl.so -Wl,-rpath,$PWD/mtbl/.libs" % demo_src
     cmd = re.sub(r"\s&&.*$", "", cmd)
-    cmd = cmd.replace("_seed/%s/" % os.path.basename(mdir), mdir + "/")
+    cmd = re.sub(r"(?<![\w/.])_seed/%s/" % re.escape(os.path.basename(mdir)), mdir + "/", cmd)
     cmd = re.sub(r"(?<![\w/])demo\.c", demo_src, cmd)
     rc, o = sh(cmd, cwd=wt)
     exe = re.search(r"-o\s+(\S+)", cmd)
